@@ -38,6 +38,11 @@ pub fn check(tier: Tier) -> Check {
     for (r1, r) in [(0u64, 1u64), (3, 1), (1, 2), (1, 3)] {
         parts.push(Part::new("C10/quota", json!({"depth": tier.pick(4, 6), "r": r, "r1": r1}), 0, tier.pick(25, 400)));
     }
+    // across a resume (hook H1): with R = 65535 (absent / announced) the publishes re-sent on the new
+    // connection and their acknowledgements must leave the quota usable - every later publish is accepted
+    parts.push(Part::new("C10/resume", json!({"depth": tier.pick(4, 6), "expiry": 1000, "secs_ago": 10}), 0, tier.pick(25, 300)));
+    parts.push(Part::new("C10/resume", json!({"depth": tier.pick(4, 5), "expiry": 1000, "secs_ago": 10, "r": 65535}), 0, tier.pick(25, 300)));
+    parts.push(Part::new("C10/resume", json!({"depth": tier.pick(3, 4), "expiry": 0, "secs_ago": 10, "r": 65535}), 0, tier.pick(25, 300)));
     parts.push(Part::new("C10/fill", json!({"r": 65535}), 0, 120));
     parts.push(Part::new("C10/fill", json!({"r": 0}), 0, 120));
     parts.push(Part::new("C10/fill", json!({"r": 300}), 0, 120));
@@ -45,7 +50,7 @@ pub fn check(tier: Tier) -> Check {
         also_rel: false,
         property: "C10",
         level: "model_checking",
-        rule: "R in {1,2,3} (announced in a bare CONNACK, and with Session Present = 1 among many other CONNECT/CONNACK settings): all histories of QoS 0/1/2 publishes, pings, subscribes, unsubscribes and acknowledgements (0x00, 0x10 and failing, for any outstanding operation) up to the stated depth; the same on the second connection of a Context whose first connection announced a different R; R in {65535, absent, 300}: deterministic fill - refuse - drain - refill runs through the real client; accept/refuse decisions and the wire must equal the model's; non-trivial = a publish was refused for quota or a slot was freed by a failing acknowledgement".into(),
+        rule: "R in {1,2,3} (announced in a bare CONNACK, and with Session Present = 1 among many other CONNECT/CONNACK settings): all histories of QoS 0/1/2 publishes, pings, subscribes, unsubscribes and acknowledgements (0x00, 0x10 and failing, for any outstanding operation) up to the stated depth; the same on the second connection of a Context whose first connection announced a different R; R = 65535 (absent / announced) across a session resume: histories, connection loss, reconnect, the acknowledgements of the re-sent packets, a fresh publish; R in {65535, absent, 300}: deterministic fill - refuse - drain - refill runs through the real client; accept/refuse decisions and the wire must equal the model's; non-trivial = a publish was refused for quota or a slot was freed by a failing acknowledgement".into(),
         assumptions: vec!["conformant broker".into()],
         parts,
     }
@@ -106,6 +111,9 @@ fn fill(name: String, params: Value) -> Scenario {
 }
 
 pub fn scenario(name: &str, params: &Value) -> Scenario {
+    if name == "C10/resume" {
+        return super::c17::scenario_for("C10", name, params);
+    }
     if name == "C10/fill" {
         return fill(name.to_string(), params.clone());
     }
